@@ -145,6 +145,11 @@ impl ConnectionManager {
                 connecting = self.endpoint.accept() => {
                     if let Some(connecting) = connecting {
                         self.handle_incoming(connecting);
+                    } else {
+                        // Once the endpoint's driver is gone (the runtime is being torn down)
+                        // `accept` yields `None` immediately, every time. Yield so that this loop
+                        // cannot spin within a single poll and keep the runtime from shutting down.
+                        tokio::task::yield_now().await;
                     }
                 },
                 Some(connecting_output) = self.pending_connections.join_next() => {
